@@ -75,8 +75,8 @@ CONF = {
     "C05": {
         "rule": "cases = sequential scenarios (container config, 1-7 bar specs, program of add/incr/set/abort/priority/write/tick/cancel steps) drawn by rapid; non-trivial = >=3 frames and >=1 change of the displayed set between frames; distinct by FNV-64 of the scenario JSON",
         "assumptions": GO_ASSUME + SCHED_ASSUME + ["one output Write call = one frame (cwriter flushes its buffer with a single Write)", "exact frame model only for manual refresh, sequential client and queue length > number of bars; otherwise history invariants"],
-        "tiers": tiers(8, 100, 16, 12000),
-        "require_classes": ["exact-model", "membership-change", "pop", "refresh:autoinj"],
+        "tiers": tiers(8, 1500, 16, 40000),
+        "require_classes": ["exact-model", "membership-change", "pop", "refresh:autoinj", "clipped", "render-fault"],
     },
     "C17": {
         "rule": "cases = sequential scenarios with BarQueueAfter links (70% of bars), chains, pop mode, removal, aborts, manual and injected auto refresh; non-trivial = a successor created after its predecessor finished, or a predecessor with >=2 successors, or a chain of >=3; distinct by FNV-64 of the scenario JSON",
